@@ -19,6 +19,8 @@ class Interner:
         str(SH.Warning): 5,
         str(SH.Info): 6,
         str(RDFS.Resource): 7,
+        str(XSD.string): 8,
+        str(RDF.langString): 9,
         str(SH.NotConstraintComponent): 20,
         str(SH.AndConstraintComponent): 21,
         str(SH.OrConstraintComponent): 22,
